@@ -241,7 +241,7 @@ func catchPanic(function func()) (err error) {
 						return
 					}
 				}
-				err = errors.New(caught.string())
+				err = errors.New(uncaughtString(caught))
 				return
 			}
 			panic(caught)
@@ -249,4 +249,19 @@ func catchPanic(function func()) (err error) {
 	}()
 	function()
 	return nil
+}
+
+// uncaughtString converts a thrown value to the text of the resulting error.
+// The conversion runs script code (toString, valueOf) which may throw again;
+// nothing is left to catch that, so it must not escape from here.
+func uncaughtString(value Value) (text string) {
+	defer func() {
+		if caught := recover(); caught != nil {
+			if _, ok := caught.(*exception); !ok {
+				panic(caught)
+			}
+			text = "[object " + value.Class() + "]"
+		}
+	}()
+	return value.string()
 }
